@@ -735,6 +735,27 @@ fn lets_cases(r: &mut Rng, n: usize) -> Vec<Case> {
         c.tags.push("lets:underscore-regression".into());
         out.push(c);
     }
+    // unary minus of a Boolean is a Number (`get_type` and the value agree): using it where a Boolean is required is rejected - deterministic
+    {
+        let t = || LE::Lit(LV::B(true));
+        let f = || LE::Var("flag".into());
+        let neg = |e: LE| LE::Un("neg", Box::new(e));
+        let not = |e: LE| LE::Un("not", Box::new(e));
+        let bin = |op: &'static str, a: LE, b: LE| LE::Bin(op, Box::new(a), Box::new(b));
+        let flag = ("flag".to_string(), LE::Lit(LV::B(false)));
+        for (i, e) in [
+            bin("and", neg(f()), f()), bin("and", f(), neg(f())), bin("or", neg(t()), f()), bin("iff", f(), neg(f())), bin("implies", neg(f()), t()), bin("xor", neg(t()), neg(f())),
+            not(neg(f())), not(neg(t())), neg(neg(f())), bin("and", neg(bin("and", f(), t())), t()), bin("add", LE::Lit(LV::I(3)), neg(f())), neg(not(f())),
+            LE::Call("range".into(), vec![LE::Lit(LV::I(0)), LE::Lit(LV::I(2)), neg(t())]), LE::Call("range".into(), vec![LE::Lit(LV::I(0)), LE::Lit(LV::I(2)), neg(f())]),
+            LE::Call("len".into(), vec![LE::Call("range".into(), vec![LE::Lit(LV::I(0)), LE::Lit(LV::I(2)), not(neg(f()))])]),
+            bin("mul", neg(f()), LE::Lit(LV::F(2.5))),
+        ].into_iter().enumerate() {
+            let mut c = lets_case(&[flag.clone(), ("k".to_string(), e)]);
+            c.tags.push("lets:negated-boolean".into());
+            c.tags.push(format!("lets:negated-boolean:{}", i));
+            out.push(c);
+        }
+    }
     // which names a constant may take (`check_if_reserved_token`)
     for name in ["min", "max", "where", "in", "for", "as", "if", "else", "solve", "true", "false", "Graph", "avg", "abs", "all", "any", "xor", "sum", "prod", "edges", "E", "len", "nodes", "V",
         "neigh_edges", "N", "neigh_edges_of", "N_of", "enumerate", "enum", "range", "zip", "difference", "union", "intersection", "lenn", "Min", "graph", "sumx", "PI", "Infinity", "e", "n_of", "Sum", "ranges"] {
